@@ -1740,11 +1740,52 @@ func checkDecoderRowsCleared(c *Ctx, rule string) {
 	w := c.W
 	gr := w.Fn("dig", "(*Result).GetRow")
 	n := 0
+	// the other discipline: rows are cleared when the decoder is reset – Scan clears every row handed out
+	// since the last reset (collection[:n], or all of them) before it sets n back to 0
+	clearedOnReset := false
+	{
+		sc0 := w.Fn("dig", "(*Result).Scan")
+		fN0 := w.Field("dig", "Result", "n")
+		fColl := w.Field("dig", "Result", "collection")
+		var resetSt *ssa.Store
+		allInstrs(sc0, func(in ssa.Instruction) {
+			if st, ok := in.(*ssa.Store); ok {
+				if f, _ := fieldOf(st.Addr); f == fN0 {
+					if k, ok := constInt(st.Val); ok && k == 0 {
+						resetSt = st
+					}
+				}
+			}
+		})
+		if resetSt != nil {
+			for _, ci := range callsNamed(sc0, "builtin clear") {
+				cs, cidx, cok := elemOf(ci.Common().Args[0])
+				if !cok || !isInduction(cidx) {
+					continue
+				}
+				base := stripConv(cs)
+				whole := isLoadOfField(base, fColl)
+				upTo := false
+				if sl, isSl := base.(*ssa.Slice); isSl && sl.Low == nil && isLoadOfField(stripConv(sl.X), fColl) {
+					if sl.High == nil {
+						whole = true
+					} else if isLoadOfField(stripNum(sl.High), fN0) && dominatesInstr(sl, resetSt) {
+						upTo = true
+					}
+				}
+				every, found := passesEveryIteration(ci)
+				after, _ := reach(siteOf(ci), isInstr(resetSt), nil)
+				if (whole || upTo) && found && every && after {
+					clearedOnReset = true
+				}
+			}
+		}
+	}
 	for _, r := range returnsOf(gr) {
 		n++
 		v := returnValues(r)[0]
 		s, idx, ok := elemOf(v)
-		good := false
+		good := clearedOnReset
 		if ok {
 			for _, ci := range callsNamed(gr, "builtin clear") {
 				cs, cidx, cok := elemOf(ci.Common().Args[0])
